@@ -177,6 +177,21 @@ class _Function(object):
         self.do_return_var_name, self.retval_var_name)
 
 
+def _has_own_return(nodes):
+  """Whether a `return` of the enclosing function occurs in the statements."""
+  for node in nodes:
+    if isinstance(node, ast.Return):
+      return True
+    if isinstance(node, (ast.FunctionDef, ast.AsyncFunctionDef, ast.ClassDef)):
+      continue
+    blocks = [getattr(node, f, None) for f in ('body', 'orelse', 'finalbody')]
+    blocks += [h.body for h in getattr(node, 'handlers', ())]
+    for block in blocks:
+      if isinstance(block, list) and _has_own_return(block):
+        return True
+  return False
+
+
 class ReturnStatementsTransformer(converter.Base):
   """Lowers return statements into variables and conditionals.
 
@@ -319,8 +334,20 @@ class ReturnStatementsTransformer(converter.Base):
     return node
 
   def visit_Try(self, node):
+    # The else clause only runs if the try block ran to its end; a return
+    # inside the try block skips it.
+    guard_orelse = bool(node.orelse) and _has_own_return(node.body)
     node.body = self._visit_statement_block(node, node.body)
     node.orelse = self._visit_statement_block(node, node.orelse)
+    if guard_orelse:
+      template = """
+        if not do_return_var_name:
+          orelse
+      """
+      node.orelse = templates.replace(
+          template,
+          do_return_var_name=self.state[_Function].do_return_var_name,
+          orelse=node.orelse)
     node.finalbody = self._visit_statement_block(node, node.finalbody)
     node.handlers = self.visit_block(node.handlers)
     return node
